@@ -84,10 +84,21 @@ func wantFilled(inner int, total, cur int64) int {
 }
 
 func c08Case(env *SeqEnv, st fillStyle, filler mpb.BarFiller, w int, total, cur, refill int64, prev *int) {
+	c08CaseC(env, st, filler, w, total, cur, refill, prev, false)
+	if total <= 0 && cur == total {
+		// what a bar of unknown total reports once SetTotal(-1, true) completed it: still nothing to fill
+		c08CaseC(env, st, filler, w, total, cur, refill, prev, true)
+	}
+}
+
+func c08CaseC(env *SeqEnv, st fillStyle, filler mpb.BarFiller, w int, total, cur, refill int64, prev *int, completed bool) {
 	id := fmt.Sprintf("%s w=%d total=%d cur=%d refill=%d", st.name, w, total, cur, refill)
+	if completed {
+		id += " completed"
+	}
 	env.Case(id, func() (string, bool, string, string) {
 		var buf bytes.Buffer
-		stat := decor.Statistics{AvailableWidth: w, Total: total, Current: cur, Refill: refill, Completed: total > 0 && cur >= total}
+		stat := decor.Statistics{AvailableWidth: w, Total: total, Current: cur, Refill: refill, Completed: completed || (total > 0 && cur >= total)}
 		err := filler.Fill(&buf, stat)
 		out := buf.String()
 		if err != nil {
